@@ -4286,6 +4286,12 @@ class NameCheckVisitor(node_visitor.ReplacingNodeVisitor):
             with self.scopes.subscope() as body_scope:
                 pass
         with self.scopes.subscope() as else_scope:
+            if orelse:
+                # The else clause runs when the loop finishes, after the body has
+                # run zero or more times.
+                with self.scopes.subscope() as not_entered_scope:
+                    pass
+                self.scopes.combine_subscopes([body_scope, not_entered_scope])
             self._generic_visit_list(orelse)
         self.scopes.combine_subscopes([body_scope, else_scope])
 
